@@ -30,6 +30,12 @@ TEXT_POOL = [
 ]
 
 
+# names real servers give themselves (some clients carry work-arounds keyed on them); None = the configured default
+IMPLEMENTATIONS = [None, "Cyrus timsieved v2.3.16", "Cyrus timsieved v2.2.13-Debian-2.2.13-19", "Cyrus timsieved v2.3.7",
+                   "Cyrus timsieved v2.4.17", "Cyrus timsieved 3.0.8", "Dovecot Pigeonhole", "dovecot", "DBMail timsieved 3.2.3",
+                   "dbmail-timsieved", "Example1 ManageSieved v001", "", "Exim 4.96 / ManageSieve proxy", "ArGoSoft Mail Server"]
+
+
 def name_ok(name):
     """RFC 5804 section 1.6 script-name rule."""
     try:
@@ -263,7 +269,15 @@ class SimServer:
     def caps(self, conn):
         cfg = self.cfg
         st = conn.state
-        out = [(b"IMPLEMENTATION", cfg.implementation.encode())]
+        impl = cfg.implementation
+        if self.cap_variation:
+            # what a server calls itself is free text; clients that key work-arounds on it must still see a conforming peer
+            k = st.__dict__.get("_impl")
+            if k is None:
+                with self.ch.abs_scope("conn#%d.impl" % conn.id):
+                    k = st.__dict__["_impl"] = self.ch.srv.weighted("impl", [6] + [1] * (len(IMPLEMENTATIONS) - 1))
+            impl = IMPLEMENTATIONS[k] or cfg.implementation
+        out = [(b"IMPLEMENTATION", impl.encode())]
         sasl = cfg.sasl_pre if (not st.tls or cfg.sasl_post is None) else cfg.sasl_post
         if sasl == "bare":
             out.append((b"SASL", None))       # a SASL line without a value
